@@ -151,7 +151,7 @@ structure Restorer where
   deriving DecidableEq, Repr
 
 inductive PanicSite
-  | taskFinishedUnwrap | taskFinishedState | taskFailedUnwrap | taskFailedState
+  | taskFinishedUnwrap | taskFinishedState | taskFailedState
   | jobCloseUnwrap | jobCancelUnwrap | queueCreatedAssert
   | validateRqAssert | attachDuplicate
   deriving DecidableEq, Repr
@@ -173,7 +173,7 @@ inductive Stop
 /-- `RestorerJob::increase_crash_counters` -/
 def RJob.increaseCrash (j : RJob) (w : Nat) : RJob :=
   { j with tasks := alMap (fun t => match t.state with
-      | .running sd => if sd.workers.contains w then { t with crash := t.crash + 1 } else t
+      | .running sd => if sd.workers.head? == some w then { t with crash := t.crash + 1 } else t   -- root only
       | _ => t) j.tasks }
 
 /-- the `TasksCanceled` arm for one id inside an existing job -/
@@ -227,7 +227,8 @@ def restorerStep (r : Restorer) : Record → Except Stop Restorer
   | .taskStarted job task inst workers =>
     match alGet r.jobs job with
     | some j =>
-      let ti : RTask := ⟨.running ⟨inst, workers⟩, some inst, 0⟩   -- crash_counter: 0 (F11)
+      -- crashes of the previous executions of the task are kept
+      let ti : RTask := ⟨.running ⟨inst, workers⟩, some inst, ((alGet j.tasks task).map (·.crash)).getD 0⟩
       .ok { r with jobs := alSet r.jobs job { j with tasks := alSet j.tasks task ti } }
     | none => .ok r
   | .taskFinished job task =>
@@ -245,7 +246,8 @@ def restorerStep (r : Restorer) : Record → Except Stop Restorer
     match alGet r.jobs job with
     | some j =>
       match alGet j.tasks task with
-      | none => .error (.panic .taskFailedUnwrap)
+      | none =>   -- `entry(..).or_insert_with(Waiting)`: a task may fail without ever being started
+        .ok { r with jobs := alSet r.jobs job { j with tasks := alSet j.tasks task ⟨.failed none, none, 0⟩ } }
       | some ti =>
         match ti.state with
         | .waiting =>
@@ -403,6 +405,14 @@ def isTaskCompleted (rt : List (Nat × RTask)) (t : Nat) : Bool :=
 def retainTasks (rt : List (Nat × RTask)) (ts : List (Nat × List Nat)) : List (Nat × List Nat) :=
   (ts.filter fun t => !isTaskCompleted rt t.1).map fun t => (t.1, t.2.filter fun d => !isTaskCompleted rt d)
 
+/-- `matches!(job_task.state, JobTaskState::Waiting)` -/
+def TState.isWaiting : TState → Bool
+  | .waiting => true
+  | _ => false
+
+/-- the job tasks the loop over `job.tasks` does not skip: those not yet restored by an earlier submit -/
+def stillWaiting (jobTasks : List (Nat × TState)) : List (Nat × TState) := jobTasks.filter (·.2.isWaiting)
+
 /-- the adjust entries the loop over `job.tasks` inserts -/
 def adjustOf (rt : List (Nat × RTask)) (jobTasks : List (Nat × TState)) : List (Nat × (Nat × Nat)) :=
   jobTasks.filterMap fun jt =>
@@ -416,9 +426,11 @@ def adjustOf (rt : List (Nat × RTask)) (jobTasks : List (Nat × TState)) : List
 /-- `job_task.state = task.state.clone()` for completed restorer tasks -/
 def applyStates (rt : List (Nat × RTask)) (jobTasks : List (Nat × TState)) : List (Nat × TState) :=
   jobTasks.map fun jt =>
-    match alGet rt jt.1 with
-    | some ti => if ti.state.isCompleted then (jt.1, ti.state) else jt
-    | none => jt
+    if jt.2.isWaiting then
+      match alGet rt jt.1 with
+      | some ti => if ti.state.isCompleted then (jt.1, ti.state) else jt
+      | none => jt
+    else jt
 
 def countOutcome (rt : List (Nat × RTask)) (jobTasks : List (Nat × TState)) (o : Outcome) : Nat :=
   (jobTasks.filter fun jt =>
@@ -426,7 +438,7 @@ def countOutcome (rt : List (Nat × RTask)) (jobTasks : List (Nat × TState)) (o
     | some ti => ti.state.outcome == o
     | none => false).length
 
-/-- the counter increments of one pass of the loop over **all** `job.tasks` (F10: earlier submits are counted again) -/
+/-- the counter increments of one pass of the loop over the `job.tasks` handed to it -/
 def bumpCounters (rt : List (Nat × RTask)) (jobTasks : List (Nat × TState)) (c : JCounters) : JCounters :=
   { c with
     finished := c.finished + countOutcome rt jobTasks .finished
@@ -451,9 +463,9 @@ def restoreSubmit (job : Nat) (rt : List (Nat × RTask)) (acc : JobAcc) (desc : 
     | .error e => .error e
     | .ok tasks =>
       let newTasks := retainTasks rt desc.tasks
-      let batch : Batch := ⟨job, newTasks, adjustOf rt tasks⟩
+      let batch : Batch := ⟨job, newTasks, adjustOf rt (stillWaiting tasks)⟩
       .ok { tasks := applyStates rt tasks
-            counters := bumpCounters rt tasks acc.counters
+            counters := bumpCounters rt (stillWaiting tasks) acc.counters
             batches := if newTasks.isEmpty then acc.batches else acc.batches ++ [batch]
             nSubmits := acc.nSubmits + 1 }
 
